@@ -25,4 +25,8 @@ def _patterns_C06(rep, spec, verbose=False, only=None):
     from . import patterns
     return patterns.run_patterns(rep, spec, tier=rep.tier, verbose=verbose, only=only)
 
-EXTRA = {'C06': _patterns_C06}
+def _patterns_C08(rep, spec, verbose=False, only=None):
+    from . import patterns
+    return patterns.run_c08(rep, spec, verbose=verbose, only=only)
+
+EXTRA = {'C06': _patterns_C06, 'C08': _patterns_C08}
